@@ -162,6 +162,15 @@ def run(chk: Check) -> None:
         ok = bool(c_) and bool(users) and all(cfg_.must_pass(cfg_.entry, [u], lambda m: m in cn, edge_ok=no_exc) for u in users)
         chk.ob('PROV-auto-persist-copy', f_, ok, f'{name} lets the class declare its members (persist hook) before it handles them', kind='persist-hook-before-members')
     ap = prog.func('persistence.Savable.auto_persist')
+    # the classmethod form (used from persist()): the set it adds to is the class's OWN -- an inherited set is copied first, else the members land in the parent
+    apf = chk.ctx.facts.analyse(ap)
+    upd_ = [c for c in calls_in_func(ap) if norm(c.func) == 'cls._auto_persist.update']
+    own_tests = [t for t in apf.cfg.nodes if t.kind == 'test' and '__dict__' in norm(t.ast.test) and '_auto_persist' in norm(t.ast.test)]
+    copies = [n for n in apf.cfg.nodes if n.kind == 'stmt' and isinstance(n.ast, ast.Assign) and norm(n.ast.targets[0]) == 'cls._auto_persist' and isinstance(n.ast.value, ast.Call)
+              and norm(n.ast.value.func) in ('set', 'frozenset', 'copy.copy') and n.ast.value.args]
+    ok = bool(upd_) and bool(own_tests) and bool(copies) and all(any(c_.id in apf.cfg.reachable([s_ for s_, l_ in t.succ], include_src=True, edge_ok=no_exc) for c_ in copies) for t in own_tests)
+    chk.ob('PROV-auto-persist-copy', ap, ok, 'Savable.auto_persist() gives the class its own copy of an inherited member set before adding to it (declarations made in a subclass\'s persist() '
+           'do not leak into the parent and its other subclasses)', node=upd_[0] if upd_ else None, kind='classmethod-own-set')
     chk.ob('PROV-auto-persist-copy', ap, any(norm(c.func) == 'cls._auto_persist.update' and [norm(a) for a in c.args] in ([f'*{ap.node.args.vararg.arg}'], [ap.node.args.vararg.arg]) for c in calls_in_func(ap)),
            'Savable.auto_persist adds exactly the named members', kind='adds-members')
 
@@ -327,6 +336,8 @@ def run(chk: Check) -> None:
     ok = any(any(h.type is not None and 'KeyError' in norm(h.type) and any(isinstance(s, ast.Raise) and 'ValueError' in norm(s.exc) for s in h.body) for h in t.handlers) for t in tr)
     chk.ob('ESC-unknown-class', ld, ok, 'a saved state without a class name is a ValueError', kind='missing-class-name')
 
+    from .common import outcome_read_after_cancel_test
+    outcome_read_after_cancel_test(chk, 'DISP-future-state', 'persistence.SavableFuture.save_instance_state', 'saving a future in any state (a cancelled one included)')
     # 5. futures: a branch per state, exception saved when failed
     rf = prog.func('persistence.SavableFuture.recreate_from')
     states = {}
